@@ -319,8 +319,32 @@ def run(ctx, rep):
             okB = q[0] == 'bin' and q[1] == 'Div' and any(x == days for x in subterms(q[2])) and any(x == ('param', 'count') for x in subterms(q[3]))
         rep.ob('R14.3', 'block-size', okB, 'B = ceil(days / count)' if okB else f'block size is {show(B, maxd=6)[:160]}')
     rep.floor('block-size terms', len(Bs), 1)
-    # loop guard: the loop is entered / continued only while s <= end
-    conds = find(lv[0].ret if len(lv) == 1 else (), lambda x: x[0] == 'app' and x[1] in ('cmp_le', 'cmp_lt', 'cmp_ge', 'cmp_gt') and
-                 len(x[2]) == 2 and x[2][1] == END and (x[2][0] == START or x[2][0][0] == 'loopval'))
-    okg = bool(conds) and all(x[1] == 'cmp_le' for x in conds)
-    rep.ob('R14.3', 'loop-guard', okg, 'blocks are produced while s <= end' if okg else f'loop guard: {[show(x)[:60] for x in conds]}')
+    # loop guard: a block starting at s is produced exactly on the paths where s <= end holds
+    n_g = 0
+    badg = []
+    for (v, asm) in pushes + pushes2:
+        if not (v[0] == 'enum' and v[4] and v[4][0][0] == 'rangeincl'):
+            continue
+        s0 = v[4][0][1]
+        rel = None
+        for c, pol in asm.items():
+            if not (isinstance(c, tuple) and c and c[0] == 'app' and c[1] in ('cmp_le', 'cmp_lt', 'cmp_ge', 'cmp_gt') and len(c[2]) == 2):
+                continue
+            a, b = c[2]
+            op = c[1][4:]
+            if a == END and b == s0:
+                a, b = b, a
+                op = {'le': 'ge', 'lt': 'gt', 'ge': 'le', 'gt': 'lt'}[op]
+            if not (a == s0 and b == END):
+                continue
+            if not pol:
+                op = {'le': 'gt', 'lt': 'ge', 'ge': 'lt', 'gt': 'le'}[op]
+            rel = op          # the path condition says: s0 <op> end
+        if rel is None:
+            continue
+        n_g += 1
+        if rel != 'le':
+            badg.append(f'a block is produced when its start is {rel} the end of the range')
+    okg = n_g > 0 and not badg
+    rep.ob('R14.3', 'loop-guard', okg if n_g else None, 'blocks are produced exactly while s <= end' if okg else
+           (sorted(set(badg))[0] + ' (expected: while start <= end)' if badg else 'no condition relating a block start to the range end found'))
